@@ -265,7 +265,7 @@ def add_reset_hook(fn):
 
 
 def explore(harness, params=None, open_findings=(), budget_s=300.0, per_path_s=30.0, stop_on_refute=True,
-            max_paths=None, seed=0):
+            max_paths=None, seed=0, traced=True):
     """Explore every feasible path of `harness(ctx)`; return verdict + per-path records (with witnesses)."""
     patches.install()
     root = RootNode()
@@ -298,7 +298,10 @@ def explore(harness, params=None, open_findings=(), budget_s=300.0, per_path_s=3
                     try:
                         msg = None
                         try:
-                            with ResumedTracing():
+                            if traced:
+                                with ResumedTracing():
+                                    harness(ctx)
+                            else:
                                 harness(ctx)
                         except Refuted as e:
                             msg = str(e.args[0]) if e.args else "refuted"
